@@ -42,27 +42,27 @@ PROPS["C12"] = dict(
 
 
 PROPS["C01"] = dict(
-    slices=["network", "net_enum", "tour_pos", "tour_mod", "path", "tour_ctor", "sched_guard", "json_writer", "spawn_vehicle"],
+    slices=["network", "net_enum", "tour_pos", "tour_mod", "path", "tour_ctor", "sched_guard", "json_writer", "spawn_vehicle", "add_path", "override_reassign"],
     witness_family="tour",
-    level_text="Verus proves on the real code: can_reach equals the documented timing rule; Tour::new_allow_invalid returns Ok exactly for node sequences that start at a start depot, end at an end depot, have only activities in between, at least one of them, and are pairwise connectable; replace_start_depot, replace_end_depot, remove and insert_path (given a connected path, which Path::new is proved to establish) preserve that invariant (Tour::wf); successors/predecessors enumerate exactly the connectable nodes. The schedule-level type guard check_receiver_type_compatibility returns true only if every moved node is compatible with the receiver's vehicle type. the JSON writer (vehicle_to_json) emits exactly the nodes of the tour it is given, in order, with the nodes' own data. spawn_vehicle_for_path refuses a path with a node that is not compatible with the vehicle type and gives the new vehicle exactly the given nodes (plus depots at the ends). The type guard of add_path_to_vehicle_tour is an assumption, not proved",
+    level_text="Verus proves on the real code: can_reach equals the documented timing rule; Tour::new_allow_invalid returns Ok exactly for node sequences that start at a start depot, end at an end depot, have only activities in between, at least one of them, and are pairwise connectable; replace_start_depot, replace_end_depot, remove and insert_path (given a connected path, which Path::new is proved to establish) preserve that invariant (Tour::wf); successors/predecessors enumerate exactly the connectable nodes. The schedule-level type guard check_receiver_type_compatibility returns true only if every moved node is compatible with the receiver's vehicle type. the JSON writer (vehicle_to_json) emits exactly the nodes of the tour it is given, in order, with the nodes' own data. spawn_vehicle_for_path refuses a path with a node that is not compatible with the vehicle type and gives the new vehicle exactly the given nodes (plus depots at the ends). add_path_to_vehicle_tour refuses a path with an incompatible node and keeps a compatible tour compatible; override_reassign refuses an incompatible segment",
     level_note="trusted: vstd, key-model axioms, derived Eq/Ord, the SeqIter shim, to_vec/Option::or/Result::unwrap_or specs, A-fmt; stub: Tour::position_of; A-path (paths handed to insert_path are connected) and A-type (compatible_with_vehicle_type guards in schedule/modifications.rs) are caller-side assumptions; A-text / A-serde for the writer",
     scope="tour-level feasibility invariant under the constructor and all four modifiers of solution/src/tour",
     assumptions=A_COMMON + A_ITER + [
         "A-path: every path handed to Tour::insert_path of a real vehicle is connected (holds for Path::new and paths cut from real tours; dummy-tour paths rely on the triangle inequality, D9)",
-        "A-type: of the compatible_with_vehicle_type guards at schedule level, check_receiver_type_compatibility (fit / override_reassign) and the guard of spawn_vehicle_for_path are proved; add_path_to_vehicle_tour and spawn_vehicle_to_replace_dummy_tour are not under contract",
+        "A-type: of the compatible_with_vehicle_type guards at schedule level, check_receiver_type_compatibility, the guards of spawn_vehicle_for_path, add_path_to_vehicle_tour and override_reassign are proved; fit_reassign (same guard function) and spawn_vehicle_to_replace_dummy_tour are not yet under contract as whole functions",
         "A-text / A-serde: text rendering of values and serde_json::to_value are opaque (see C03)",
     ],
 )
 PROPS["C10"] = dict(
-    slices=["network", "tour_pos", "tour_mod", "path", "sched_guard", "admission", "train_formation_update", "update_tours", "remove_segment", "spawn_vehicle"],
+    slices=["network", "tour_pos", "tour_mod", "path", "sched_guard", "admission", "train_formation_update", "update_tours", "remove_segment", "spawn_vehicle", "add_path", "override_reassign"],
     witness_family="tour",
-    level_text="clause 1 (every vehicle tour is a chronological path of connectable nodes from a start depot to an end depot with activities in between): same obligations as C01 on the Tour constructor and modifiers; cycle-membership clause: update_transitions_and_violation_fast keeps every type's rotation cycles well formed w.r.t. the new tours with exactly the new real vehicles of the type as members (under the stated caller-side precondition: no vehicle listed twice); formation, track and depot limits: the admission checks vehicle_replacement_in_train_formation and can_depot_spawn_vehicle_custom_usage are exact and update_train_formation applies them to exactly the moved nodes (same obligations as C02); sorted listings: update_tours keeps the vehicle and dummy listings sorted, duplicate-free and matching the maps; formation/tour agreement of whole schedules is NOT decided",
+    level_text="clause 1 (every vehicle tour is a chronological path of connectable nodes from a start depot to an end depot with activities in between): same obligations as C01 on the Tour constructor and modifiers; cycle-membership clause: update_transitions_and_violation_fast keeps every type's rotation cycles well formed w.r.t. the new tours with exactly the new real vehicles of the type as members (under the stated caller-side precondition: no vehicle listed twice); formation, track and depot limits: the admission checks vehicle_replacement_in_train_formation and can_depot_spawn_vehicle_custom_usage are exact and update_train_formation applies them to exactly the moved nodes (same obligations as C02); sorted listings: update_tours keeps the vehicle and dummy listings sorted, duplicate-free and matching the maps; formation/tour agreement: the whole modifications under contract (remove_segment, spawn_vehicle_for_path, add_path_to_vehicle_tour, override_reassign) add / remove the vehicle in the formations of exactly the nodes its tour gains / loses; that this holds for every reachable schedule (fit_reassign, the dummy operations) is NOT decided",
     level_note="same trusted base and caller-side assumptions as C01",
     scope="Tour::wf established by new_allow_invalid and preserved by replace_start_depot / replace_end_depot / remove / insert_path",
     assumptions=A_COMMON + A_ITER + ["A-path, A-type as for C01", "schedule-level invariants (formations, listings, depot usage, cycles) not under contract"],
 )
 PROPS["C02"] = dict(
-    slices=["limits", "admission", "mcf_bounds", "train_formation_update"],
+    slices=["limits", "admission", "mcf_bounds", "train_formation_update", "add_path"],
     witness_family="net",
     level_text="Verus proves the per-call contracts: maximal_formation_count_for returns the smaller of the limits that are present (None iff neither), Depot::capacity_for is bounded by total and per-type capacity and is 0 for unlisted types, number_of_vehicles_required_to_serve is the exact ceiling; the schedule-level admission checks are exact: vehicle_replacement_in_train_formation lets a formation grow only while it is strictly below the track count (maintenance) resp. the combined formation limit (service) and otherwise performs exactly replace / remove / add_at_tail / no-op, can_depot_spawn_vehicle_custom_usage is true iff the type is listed with room left for the type and in total; the composition over schedule histories (train_formations single writer, spawn paths) is a structural argument, not machine-checked",
     level_note="trusted: vstd, key-model axioms, u32::div_ceil and Option::or specs; stubs: VehicleTypes::get, VehicleTypes::iter; A-im (im::HashMap / HashSet shims), std HashMap Index spec; update_train_formation (the single writer of the formation table) is under contract in slice train_formation_update: moved nodes get exactly the admitted replacement, a grown formation stays within the node's limit; of the min-cost-flow stage only the bound expressions on trip and depot edges are under contract (R8 fragments: upper bound = combined limit resp. capacity_for, lower bound = min(required, limit)); that the circulation returned by rs_graph's network_simplex respects them is A-lib",
@@ -70,9 +70,9 @@ PROPS["C02"] = dict(
     assumptions=A_COMMON + ["A-stub: VehicleTypes::get returns the stored type", "A-lib: rs_graph::mcf::network_simplex returns a circulation within the edge bounds; the graph plumbing of solve_for_vehicle_type is pinned by a skeleton hash, not verified", "the stand-in 100 for 'no formation limit' in the flow network is documented behaviour (trips needing more than 100 unlimited vehicles are not fully served by the start solution)"],
 )
 PROPS["C03"] = dict(
-    slices=["json_out", "json_writer"],
+    slices=["json_out", "json_writer", "train_formation_update", "remove_segment", "spawn_vehicle", "add_path", "override_reassign"],
     witness_family=None,
-    level_text="Verus proves on the verbatim writer functions of solution/src/json_serialisation.rs (schedule_dead_head_trip, vehicle_to_json, fleet_to_json, departure_segments_to_json, maintenance_slots_to_json, depot_usage_to_json, depots_usage_to_json, schedule_to_json): every dead-head trip lies inside the gap between the two activities it connects; a vehicle's itinerary lists exactly the service nodes and maintenance nodes of its tour, in tour order, each with the node's own id, origin, destination and times, and its dead-head trips are exactly the legs whose locations differ; the trip perspective lists every service node / maintenance slot of the network's index lists once, with the node's own data and the schedule's train formation of that node; depot loads are one entry per depot of the depot table and spawning type with the number of vehicles spawned there; the document is assembled from exactly these parts. That the stored train formation of a node equals the set of vehicles whose tour contains it (the two views agree) is an invariant of Schedule (C10) and NOT decided here; arrival = departure + duration is a property of the input loader (Network::new copies the times) and not decided",
+    level_text="Verus proves on the verbatim writer functions of solution/src/json_serialisation.rs (schedule_dead_head_trip, vehicle_to_json, fleet_to_json, departure_segments_to_json, maintenance_slots_to_json, depot_usage_to_json, depots_usage_to_json, schedule_to_json): every dead-head trip lies inside the gap between the two activities it connects; a vehicle's itinerary lists exactly the service nodes and maintenance nodes of its tour, in tour order, each with the node's own id, origin, destination and times, and its dead-head trips are exactly the legs whose locations differ; the trip perspective lists every service node / maintenance slot of the network's index lists once, with the node's own data and the schedule's train formation of that node; depot loads are one entry per depot of the depot table and spawning type with the number of vehicles spawned there; the document is assembled from exactly these parts. That the stored train formation of a node equals the set of vehicles whose tour contains it (the two views agree) is an invariant of Schedule: the whole modifications under contract (remove_segment, spawn_vehicle_for_path, add_path_to_vehicle_tour, override_reassign, via update_train_formation) add / remove a vehicle in the formations of exactly the nodes its tour gains / loses; fit_reassign and the dummy operations are not yet under contract, so the agreement is NOT decided for every reachable schedule; arrival = departure + duration is a property of the input loader (Network::new copies the times) and not decided",
     level_note="trusted: vstd, rapid_time operator contracts (verified in slice time), Network accessors (verified in slice network), A-text (to_string / String + &str / as_iso render the named value), A-serde (serde_json::to_value keeps the struct), SeqIter stubs for the repository's iterators, A-index (Network's per-type lists enumerate the service / maintenance nodes exactly once)",
     scope="solution/src/json_serialisation.rs: all writer functions",
     assumptions=A_COMMON + A_ITER + [
@@ -85,7 +85,7 @@ PROPS["C03"] = dict(
 )
 PROPS["C09"] = dict(
     kani=True,
-    slices=["tour_mod", "formation", "depot_usage", "sched_guard", "train_formation_update", "update_tours", "remove_segment", "spawn_vehicle"],
+    slices=["tour_mod", "formation", "depot_usage", "sched_guard", "train_formation_update", "update_tours", "remove_segment", "spawn_vehicle", "add_path", "override_reassign"],
     witness_family="tour",
     level_text="tour level: Verus proves that compute_*_of_nodes (and hence new_computing / every freshly built tour) equal the from-scratch meaning of the five cached figures written from the property text, and that replace_start_depot, replace_end_depot, remove and insert_path keep all five caches exact (delta formulas = recomputation), including tours through the infinitely distant overflow depot; schedule level: the depot-usage table stays exact for the updated vehicle and untouched for all others under update_depot_usage (from-scratch meaning: spawned/despawned sets per depot and type), depot_balance / total_depot_balance_violation are the sizes' differences resp. their absolute sum, update_tour_and_costs applies exactly the cost delta, update_tours (the common bookkeeping of fit/override_reassign) applies exactly the cost delta of the replaced / removed real tours and keeps the depot-usage table exact for provider and receiver and untouched for everyone else, update_train_formation changes the unserved-passengers pair by exactly - Σ unserved(old formation) + Σ unserved(new formation) over the moved service trips, update_transitions_and_violation_fast and set_next_day_transitions keep the schedule's maintenance violation equal to the sum of the per-type totals; the other schedule aggregates (costs across whole modifications, unserved passengers) are NOT decided",
     level_note="trusted: as C01 plus A-iter sums (Sum for Distance/Duration folds with +; integer sums do not wrap); Network::bounded magnitudes are a stated precondition",
@@ -93,9 +93,9 @@ PROPS["C09"] = dict(
     assumptions=A_COMMON + A_ITER + ["Schedule.{costs, unserved_passengers, maintenance_violation, depot_usage} delta updates are not under contract"],
 )
 PROPS["C13"] = dict(
-    slices=["formation", "train_formation_update", "update_tours", "remove_segment", "spawn_vehicle"],
+    slices=["formation", "train_formation_update", "update_tours", "remove_segment", "spawn_vehicle", "add_path", "override_reassign"],
     witness_family=None,
-    level_text="last sentence and the formation frame: Verus proves that TrainFormation::replace puts the new vehicle at the replaced one's position, add_at_tail appends, remove keeps the order, and replace/remove return Err iff the vehicle is absent; Schedule::update_train_formation (the formation bookkeeping of every modification) gives every moved non-depot node exactly the replacement that vehicle_replacement_in_train_formation specifies for its old formation, leaves the formations of all other nodes untouched, and refuses iff one replacement is refused; Schedule::update_tours replaces exactly the provider's and the receiver's tour (a provider without new tour disappears from tours / vehicles / its sorted listing, a dummy provider from the dummy tours and listing), leaves every other vehicle, tour, dummy tour and listing untouched and passes the formation update through; Schedule::remove_segment as a whole modification: the provider loses exactly the segment (or the whole-tour case delegates to replace_vehicle_by_dummy), the removed service trips are handed back in exactly one new dummy tour with a fresh id (none if there is no service trip), every other tour, the vehicle set, the formations of all other nodes stay untouched, the aggregates follow (costs, unserved passengers, depot usage, transitions); Tour::new_dummy keeps exactly the service trips in order; Schedule::spawn_vehicle_for_path adds exactly one vehicle with a fresh id whose tour is the given path in order with depots at the ends (defect D12), inserts the id at its sorted position, changes no other tour, vehicle, dummy or listing, and the aggregates follow; which nodes fit_reassign / override_reassign move, and delete_dummy / replace_vehicle_by_dummy / add_path_to_vehicle_tour as whole modifications are NOT decided",
+    level_text="last sentence and the formation frame: Verus proves that TrainFormation::replace puts the new vehicle at the replaced one's position, add_at_tail appends, remove keeps the order, and replace/remove return Err iff the vehicle is absent; Schedule::update_train_formation (the formation bookkeeping of every modification) gives every moved non-depot node exactly the replacement that vehicle_replacement_in_train_formation specifies for its old formation, leaves the formations of all other nodes untouched, and refuses iff one replacement is refused; Schedule::update_tours replaces exactly the provider's and the receiver's tour (a provider without new tour disappears from tours / vehicles / its sorted listing, a dummy provider from the dummy tours and listing), leaves every other vehicle, tour, dummy tour and listing untouched and passes the formation update through; Schedule::remove_segment as a whole modification: the provider loses exactly the segment (or the whole-tour case delegates to replace_vehicle_by_dummy), the removed service trips are handed back in exactly one new dummy tour with a fresh id (none if there is no service trip), every other tour, the vehicle set, the formations of all other nodes stay untouched, the aggregates follow (costs, unserved passengers, depot usage, transitions); Tour::new_dummy keeps exactly the service trips in order; Schedule::spawn_vehicle_for_path adds exactly one vehicle with a fresh id whose tour is the given path in order with depots at the ends (defect D12), inserts the id at its sorted position, changes no other tour, vehicle, dummy or listing, and the aggregates follow; Schedule::override_reassign: the provider loses exactly the segment (or disappears), the receiver's tour is the insertion of the removed path, the displaced service trips go to exactly one new dummy tour with a fresh id, a real receiver leaves the formations of every displaced node whether or not a dummy tour is created, formations elsewhere and all other tours untouched; Schedule::add_path_to_vehicle_tour: the vehicle's tour is prefix + whole path + suffix, the returned conflict path is exactly the dropped block, the vehicle joins the formations of the path and leaves those of the dropped block, it is refused exactly for an incompatible node, a full start depot or a full formation; fit_reassign / fit_path_into_tour, delete_dummy and replace_vehicle_by_dummy as whole modifications are NOT yet decided",
     level_note="trusted: vstd Vec specs (push, swap_remove, remove, clone), SeqIter::position, A-clone (derived Clone of Vehicle returns an equal value)",
     scope="solution/src/train_formation.rs",
     assumptions=["A-iter: SeqIter::position = first index satisfying the predicate", "A-clone: derived Clone returns an equal value"],
@@ -162,7 +162,7 @@ PROPS["C07"] = dict(
 
 ALL_SLICES = ["time", "network", "net_enum", "limits", "json_out", "tour_pos", "tour_mod", "path", "tour_ctor", "formation", "transition",
               "tsp_ranges", "admission", "reassign", "pipeline", "mcf_bounds", "sched_guard", "depot_usage", "network_new", "json_writer",
-              "objective", "train_formation_update", "update_tours", "remove_segment", "spawn_vehicle"]
+              "objective", "train_formation_update", "update_tours", "remove_segment", "spawn_vehicle", "add_path", "override_reassign"]
 PROPS["C06"] = dict(
     slices=["time", "network_new", "tsp_ranges", "mcf_bounds", "limits", "objective", "pipeline", "json_out", "transition"],
     thorough_slices=ALL_SLICES,
